@@ -61,7 +61,7 @@ def call_function(algopy, fname, x, via, params):
     raise KeyError(fname)
 
 
-def h_unary(ctx, fname, D, P, shape, via='algopy', params=None, cplx=False):
+def h_unary(ctx, fname, D, P, shape, via='algopy', params=None, cplx=False, layout=None):
     algopy = symx.load_algopy()
     params = dict(params or {})
     shape = tuple(shape)
@@ -82,7 +82,13 @@ def h_unary(ctx, fname, D, P, shape, via='algopy', params=None, cplx=False):
             info[(p,) + i] = ex
             for d in range(1, D):
                 X[(d, p) + i] = ctx.cvar('x%d_%s' % (d, tag)) if cplx else ctx.var('x%d_%s' % (d, tag))
-    x = mk_utpm(ctx, algopy, X)
+    if layout == 'T':
+        # the operand is a transposed (non-contiguous) view of another polynomial
+        base = mk_utpm(ctx, algopy, np.transpose(X, (0, 1) + tuple(range(2, X.ndim))[::-1]).copy())
+        x = base.T
+        ctx.fact(plain_shape(x) == shape, 'transposed operand has shape %s' % (shape,))
+    else:
+        x = mk_utpm(ctx, algopy, X)
     y = call_function(algopy, fname, x, via, params)
     Y = data_of(ctx, algopy, y, (D, P) + shape)
     ctx.fact(Y.shape == (D, P) + shape, 'result shape %s == %s' % (Y.shape, (D, P) + shape))
@@ -93,6 +99,41 @@ def h_unary(ctx, fname, D, P, shape, via='algopy', params=None, cplx=False):
             ref = lib.compose(ders, xs, D)
             for d in range(D):
                 ctx.eq(Y[(d, p) + i], ref[d], 'y[%d,%d%s]' % (d, p, ''.join(',%d' % j for j in i)))
+
+
+def plain_shape(x):
+    return tuple(x.data.shape[2:])
+
+
+def h_recompute(ctx, fname, D, P):
+    """the result is a function of the current coefficients only: evaluate, update the
+    operand in place, evaluate again == evaluating a fresh copy of the updated operand"""
+    algopy = symx.load_algopy()
+    shape = (2,)
+    X = np.empty((D, P) + shape, dtype=object if ctx.mode == 'sym' else float)
+    for p in range(P):
+        for i in range(2):
+            x0, ex = x0_for(ctx, 'powf' if fname in ('log', 'sqrt', 'gammaln') else 'exp', 'p%d_%d' % (p, i))
+            X[0, p, i] = x0
+            for d in range(1, D):
+                X[d, p, i] = ctx.var('x%d_p%d_%d' % (d, p, i))
+    c = ctx.var('c', pos=True)
+    x = mk_utpm(ctx, algopy, X)
+    y1 = call_function(algopy, fname, x, 'algopy', {})
+    y1c = data_of(ctx, algopy, y1).copy()
+    x += c                                   # in-place update of the same object
+    y2 = call_function(algopy, fname, x, 'algopy', {})
+    X2 = X.copy()
+    X2[0] = X2[0] + c
+    y2ref = call_function(algopy, fname, mk_utpm(ctx, algopy, X2), 'algopy', {})
+    ctx.eq(data_of(ctx, algopy, y2), data_of(ctx, algopy, y2ref), '%s after x += c == %s of a fresh copy' % (fname, fname))
+    ctx.eq(data_of(ctx, algopy, y1), y1c, 'first result not changed by the later update')
+    x[1] = x[0] * 2.0                        # item assignment
+    X3 = X2.copy()
+    X3[:, :, 1] = X3[:, :, 0] * (2 if ctx.mode == 'sym' else 2.0)
+    y3 = call_function(algopy, fname, x, 'algopy', {})
+    y3ref = call_function(algopy, fname, mk_utpm(ctx, algopy, X3), 'algopy', {})
+    ctx.eq(data_of(ctx, algopy, y3), data_of(ctx, algopy, y3ref), '%s after x[1] = ... == fresh' % fname)
 
 
 def derivs(ctx, fname, x0, K, params, ex):
@@ -231,6 +272,11 @@ def units(tier, seed):
     for fname in fnames:
         for (D, P, shape) in cfgs:
             add('%s/D%d,P%d,%s' % (fname, D, P, shape), 'h_unary', fname=fname, D=D, P=P, shape=shape)
+    # non-contiguous operands (transposed views) and recomputation after in-place updates
+    for fname in fnames:
+        add('%s/transposed view/D3,P2,(2, 3)' % fname, 'h_unary', fname=fname, D=3, P=2, shape=(2, 3), layout='T')
+    for fname in ['exp', 'log', 'sqrt', 'sin', 'cos', 'tan', 'sinh', 'tanh', 'erf', 'expit', 'gammaln', 'reciprocal', 'square', 'arctan']:
+        add('%s/recompute after in-place update/D3,P1' % fname, 'h_recompute', fname=fname, D=3, P=1)
     # numpy ufunc dispatch and method route
     for fname in ['exp', 'log', 'sqrt', 'sin', 'cos', 'tan', 'arcsin', 'arccos', 'arctan', 'sinh', 'cosh', 'tanh']:
         add('%s/numpy-ufunc/D4,P2' % fname, 'h_unary', fname=fname, D=4, P=2, shape=(), via='numpy')
